@@ -96,10 +96,12 @@ func arr32(v *big.Int) *[32]byte { return oracle.Arr32(v) }
 // scalarFromBig builds a Scalar for v in [0,n) through the canonical
 // decoder.  Panics if v is out of range (harness bug).
 func scalarFromBig(v *big.Int) *Scalar {
-	s, err := secp256k1.NewScalarFromCanonicalBytes(arr32(v))
+	buf := arr32(v)
+	s, err := secp256k1.NewScalarFromCanonicalBytes(buf)
 	if err != nil {
 		panic(fmt.Sprintf("harness: scalarFromBig(%x): %v", v, err))
 	}
+	scribble(buf[:]) // the caller's buffer is the caller's again (see mustPriv)
 	return s
 }
 
@@ -111,10 +113,13 @@ func pointFromOracle(p *oracle.Pt) *Point {
 	if p.Inf {
 		return secp256k1.NewIdentityPoint()
 	}
-	q, err := secp256k1.NewPointFromCoords(arr32(p.X), arr32(p.Y))
+	bx, by := arr32(p.X), arr32(p.Y)
+	q, err := secp256k1.NewPointFromCoords(bx, by)
 	if err != nil {
 		panic(fmt.Sprintf("harness: pointFromOracle(%v): %v", p, err))
 	}
+	scribble(bx[:])
+	scribble(by[:])
 	return q
 }
 
